@@ -144,10 +144,7 @@ def run_case(case):
     assert code == 0 and rec and rec['ok'], (code, rec)
     trace = rec['trace']
     K = len(trace)
-    counters['unshimmed_events'] += len(rec['unshimmed'])
-    if rec['unshimmed']:
-        return dict(nontrivial=False, violations=[], cov=cov, counters=counters,
-                    inconclusive='unshimmed file-system events: %r' % rec['unshimmed'][:3])
+    counters['unshimmed_events'] += len(rec['unshimmed'])     # audit-level events (also crash points)
 
     def post_crash(cpdir, what):
         """-> set of checkpoints that are complete on disk; reports partial/incomplete stream.ndjson."""
